@@ -409,13 +409,11 @@ theorem renderNode_fr (E : Env) {go : Go} (hg : GoFr go) (tpl : Bytes) :
         · cases h; rw [i1]
         · cases h
       · split at h
-        · simp only [unsup] at h; cases h
-        · split at h
-          · simp only [rerr] at h; cases h
-          · obtain ⟨⟨vals, st2⟩, h2, h⟩ := bind_ok h
-            obtain ⟨⟨o3, st3⟩, h3, h⟩ := bind_ok h
-            cases h
-            rw [← i1, ← evalArgs_ctx E _ _ _ _ h2]
+        · simp only [rerr] at h; cases h
+        · obtain ⟨⟨vals, st2⟩, h2, h⟩ := bind_ok h
+          obtain ⟨⟨o3, st3⟩, h3, h⟩ := bind_ok h
+          cases h
+          rw [← i1, ← evalArgs_ctx E _ _ _ _ h2]
   | .macro name _ _ _ _, st, o, st', h => by
     simp only [renderNode, pure_eq_ok] at h; cases h; rfl
   | .importN te alias, st, o, st', h => by
@@ -1834,14 +1832,12 @@ theorem renderNode_kn (E : Env) {go : Go} (hg : GoKN go) (tpl : Bytes) :
         · cases h; exact hk1
         · cases h
       · split at h
-        · simp only [unsup] at h; cases h
-        · split at h
-          · simp only [rerr] at h; cases h
-          · obtain ⟨⟨vals, st2⟩, h2, h⟩ := bind_ok h
-            obtain ⟨⟨o3, st3⟩, h3, h⟩ := bind_ok h
-            cases h
-            show KN st2.ctx.macros
-            rw [evalArgs_ctx E _ _ _ _ h2]; exact hk1
+        · simp only [rerr] at h; cases h
+        · obtain ⟨⟨vals, st2⟩, h2, h⟩ := bind_ok h
+          obtain ⟨⟨o3, st3⟩, h3, h⟩ := bind_ok h
+          cases h
+          show KN st2.ctx.macros
+          rw [evalArgs_ctx E _ _ _ _ h2]; exact hk1
   | .macro name _ _ _ _, st, o, st', h, hk => by
     simp only [renderNode, pure_eq_ok] at h; cases h; exact setKV_kn hk
   | .importN te alias, st, o, st', h, hk => by
